@@ -22,6 +22,8 @@ the loader rewrites:
   N6  while True: if X: break; rest    ->  while not X: rest         (loops without else whose first statement is the exit test)
   N31 for T in iter(F, None): BODY     ->  while True: t = F(); if t is None: break; T = t; BODY     (two-argument iter, None sentinel)
   N32 a = b = E                        ->  b = E; a = b              (chained assignment to names / plain attribute paths)
+  N46 a local bound once in its function, to a constant  ->  read as the constant
+  N45 if c: A else: break  ->  if not c: break; A       (an arm that is only `break`)
   N44 a, b = E1, E2  (names; no Ei reads a or b)  ->  a = E1; b = E2
   N43 NAME = <constant> at class / module level, bound once, never stored elsewhere  ->  read as the constant
   N42 while True: S; if X: break  ->  S; while not X: S      (the do-while form; S one or two plain statements)
@@ -312,6 +314,11 @@ class _N(ast.NodeTransformer):
 
     def visit_If(self, node: ast.If):
         self.generic_visit(node)
+        # N45 (also on what N24 produces):  if c: A else: break   ->   if not c: break;  A
+        if node.orelse and len(node.orelse) == 1 and isinstance(node.orelse[0], ast.Break) and node.body \
+                and not (len(node.body) == 1 and isinstance(node.body[0], ast.Break)):
+            guard = ast.copy_location(ast.If(test=_negate(node.test), body=node.orelse, orelse=[]), node)
+            return [ast.fix_missing_locations(guard)] + list(node.body)
         # N30: if c: pass else: B      ->      if not c: B        (what N24 leaves of `if c: continue` + REST)
         if len(node.body) == 1 and isinstance(node.body[0], ast.Pass) and node.orelse:
             node = ast.copy_location(ast.If(test=_negate(node.test), body=node.orelse, orelse=[]), node)
@@ -338,6 +345,10 @@ class _N(ast.NodeTransformer):
                     if isinstance(n, (ast.Name, ast.Tuple, ast.List)):
                         n.ctx = ast.Store()
                 return ast.copy_location(loop, node)
+        # (N3 first, so that N9 builds its conditional expression over the positive test)
+        if node.orelse and not (len(node.orelse) == 1 and isinstance(node.orelse[0], ast.If)) \
+                and isinstance(node.test, ast.UnaryOp) and isinstance(node.test.op, ast.Not):
+            node = ast.copy_location(ast.If(test=node.test.operand, body=node.orelse, orelse=node.body), node)
         # N9: two single-statement arms doing the same thing with different values become one conditional expression
         def _calls_private(st) -> bool:
             # a value computed by a private helper stays a statement, so that the inlined view (sa/inline.py) can expand it
@@ -1259,6 +1270,17 @@ class _IterSentinel(ast.NodeTransformer):
 
     def visit_If(self, node: ast.If):
         self.generic_visit(node)
+        # N45: if c: A else: break   ->   if not c: break;  A          if c: break else: A   ->   if c: break;  A
+        # (an arm that is nothing but `break` leaves the loop: the other arm is what follows the exit test)
+        if node.orelse and len(node.orelse) == 1 and isinstance(node.orelse[0], ast.Break) and node.body \
+                and not (len(node.body) == 1 and isinstance(node.body[0], ast.Break)):
+            guard = ast.copy_location(ast.If(test=_negate(node.test), body=node.orelse, orelse=[]), node)
+            return [ast.fix_missing_locations(guard)] + list(node.body)
+        if node.orelse and len(node.body) == 1 and isinstance(node.body[0], ast.Break) \
+                and not (len(node.orelse) == 1 and isinstance(node.orelse[0], ast.If)):
+            rest = list(node.orelse)
+            node.orelse = []
+            return [node] + rest
         r = _unwalrus(node.test)
         if r is None:
             return node
@@ -1642,6 +1664,47 @@ class _PropagateConsts(ast.NodeTransformer):
             return ast.copy_location(_clone(self.mod[n.id]), n)
         return n
 
+    def visit_FunctionDef(self, node):
+        # N46: a local bound exactly once in its function, to a constant (`stop_token = None`, `poll = 0.1`), reads as that constant
+        # (parameters, names declared global / nonlocal, loop and with targets, and names bound more than once are left alone)
+        self.generic_visit(node)
+        if getattr(self, "_in_fn", 0):
+            return node                                  # decided at the outermost function: a closure sees the same binding
+        count: dict = {}
+        binds: dict = {}
+        for n in ast.walk(node):
+            if isinstance(n, ast.Name) and isinstance(n.ctx, (ast.Store, ast.Del)):
+                count[n.id] = count.get(n.id, 0) + 1
+            elif isinstance(n, ast.arg):
+                count[n.arg] = count.get(n.arg, 0) + 2
+            elif isinstance(n, (ast.Global, ast.Nonlocal)):
+                for nm in n.names:
+                    count[nm] = count.get(nm, 0) + 2
+            elif isinstance(n, (ast.FunctionDef, ast.AsyncFunctionDef, ast.ClassDef)) and n is not node:
+                count[n.name] = count.get(n.name, 0) + 2
+            elif isinstance(n, (ast.Import, ast.ImportFrom)):
+                for a in n.names:
+                    nm = (a.asname or a.name).split(".")[0]
+                    count[nm] = count.get(nm, 0) + 2
+            elif isinstance(n, ast.ExceptHandler) and n.name:
+                count[n.name] = count.get(n.name, 0) + 2
+            if isinstance(n, (ast.Assign, ast.AnnAssign)):
+                b = _const_binding(n)
+                if b is not None:
+                    binds[b[0]] = b[1]
+        consts = {k: v for k, v in binds.items() if count.get(k) == 1}
+        if not consts:
+            return node
+
+        class _S(ast.NodeTransformer):
+            def visit_Name(s_, n):
+                if isinstance(n.ctx, ast.Load) and n.id in consts:
+                    return ast.copy_location(_clone(consts[n.id]), n)
+                return n
+        return _S().visit(node)
+
+    visit_AsyncFunctionDef = visit_FunctionDef
+
     def visit_Attribute(self, n: ast.Attribute):
         self.generic_visit(n)
         if isinstance(n.ctx, ast.Load) and n.attr in CLASS_CONSTS:
@@ -1659,8 +1722,7 @@ def normalise(tree: ast.Module) -> ast.Module:
     if roots:
         tree = _DropInert(roots).visit(tree)
     pc = _PropagateConsts(tree)
-    if pc.mod or CLASS_CONSTS:
-        tree = pc.visit(tree)
+    tree = pc.visit(tree)
     if NEVER_PASSED or FLAG_FIELDS:
         tree = _SpecialiseDefaults().visit(tree)
     tree = _IterSentinel().visit(tree)
